@@ -98,7 +98,7 @@ def edge_shapes(tier):
     # every syntax function on every node that has a parent, on trees with zero-width nodes (MISSING nodes, empty blocks), comments,
     # errors, same-range parents and children, no final line break
     names = A.source_names()
-    odd = [j + 1 for j, nm in enumerate(names) if any(k in nm for k in ("s12_", "s17a_", "s17e_", "s17f_", "s17g_", "s17h_", "s09_"))]
+    odd = [j + 1 for j, nm in enumerate(names) if any(k in nm for k in ("s12_", "s17a_", "s17e_", "s17f_", "s17g_", "s17h_", "s09_", "s17k_"))]
     synq = "(_ (_) @x) "
     syn_stmts = [A.node(v("n")), A.attrn(v("n"), A.attr("idx", A.call("named-child-index", c("x"))), A.attr("ty", A.call("node-type", c("x"))),
                                  A.attr("txt", A.call("source-text", c("x"))), A.attr("sr", A.call("start-row", c("x"))), A.attr("sc", A.call("start-column", c("x"))),
